@@ -548,7 +548,7 @@ def _reader_check(then, toks, variant, nfields, field_tys):
     return probs, env, blk, ev_let, ev_expr
 
 
-@rule("C19", "C19.d.memory-location-grammar", floor=4)
+@rule("C19", "C19.d.memory-location-grammar", floor=2)
 def c19d(F, R):
     """the hand-written MemoryLocation text format round-trips: interpreting the reader's split/parse steps over the writer's format pieces returns every field, with its sign and full range"""
     sp = F.method(MEMLOC, "serialize", trait_ref=r"ser::Serialize")
